@@ -125,7 +125,15 @@ def run(ctx):
     for f in m.fns.values():
         if not f.id.startswith("memory::budget::"):
             continue
-        ws = [c for c in f.calls if "Atomic" in c.full and "<usize>" in c.full and c.name.rsplit("::", 1)[-1] in WR]
+        ws = []
+        for c in f.calls:
+            if not ("Atomic" in c.full and "<usize>" in c.full and c.name.rsplit("::", 1)[-1] in WR):
+                continue
+            # only pool counters: a field pool_counter can return, the result of pool_counter(), or a counter passed in by reference
+            k_, p_, _ = arg_origin(f, c, 0)
+            flds = set(origin_fields(f, k_, p_))
+            if (flds & want) or (k_ == "call" and p_ is not None and p_.name == MB + "pool_counter") or (k_ == "arg") or not flds and k_ not in ("field",):
+                ws.append(c)
         if ws:
             host = f if f.kind != "closure" else m.fns.get(f.parent, f)
             writers.setdefault(host.id, (host, []))[1].extend(ws)
